@@ -925,7 +925,7 @@ J gen_world(uint64_t seed, const J &opts)
 			oper.push(o);
 		}
 	}
-	if ((focus == "C07" || focus == "C03" || focus == "C05") && oper.size() == 0 && g.chance(focus == "C07" ? 300 : 200)) {
+	if ((focus == "C07" || focus == "C03" || focus == "C05" || focus == "C13") && oper.size() == 0 && g.chance(focus == "C07" ? 300 : 200)) {
 		// the operator stops (and restarts) the manager at a chosen point of the socket thread's work: in the middle of
 		// applying a response (k-th update callback), at its k-th receive call, or at a state change
 		J o = J::obj();
@@ -936,6 +936,14 @@ J gen_world(uint64_t seed, const J &opts)
 		on["ev"] = k < 55 ? "pfx_cb" : k < 85 ? "recv" : "status";
 		on["sock"] = g.chance(700) ? 0 : -1;
 		on["n"] = (long long)(k < 55 ? g.range(1, 40) : k < 85 ? g.range(1, 120) : g.range(1, 12));
+		if (focus == "C13" ? g.chance(700) : g.chance(120)) {
+			// the stop lands between the transport noticing that the cache hung up and the library acting on it
+			on["ev"] = "recv_closed";
+			on["n"] = (long long)g.range(1, 3);
+		} else if (g.chance(150)) {
+			on["ev"] = "resp_end"; // the socket thread is about to apply a complete answer
+			on["n"] = (long long)g.range(1, 8);
+		}
 		o["on"] = on;
 		oper.push(o);
 		J o2 = J::obj();
